@@ -12,6 +12,8 @@ from . import common as C
 from . import simrun as R
 from . import xcut as X
 
+CLAIM_MORE = 'ALSO proved (C05x.v, C05s.v, C05disc.v; checkers ic_sirb / ic_genb / ic_sisb / dinit_okb sound, extracted, applied to implementation outputs): event-driven SIR on any delay provider and both fast_SIR paths, fast_SIS / fast_nonMarkov_SIS for every argument form, simple and complex contagion, the discrete-time simulators — every returning run starts as requested, rho count and distinctness, EoNError / KeyError clauses. After two repairs of /repo found here: rho together with initial_recovereds is EoNError in every SIR simulator and a random start node is never an initially recovered one (theorems conclude I0 and R0 disjoint).'
+
 CLAIM = dict(
     text="Machine-checked theorems (coq/Props/C05.v, closed under the global context) for Gillespie_SIR/SIS on every graph: row 0 of every run (every draw script) is "
          "(N-|I0|-|R0|, |I0|, |R0|) at tmin, the state the run starts from has exactly the requested statuses, rho draws int(round(N*rho)) (round half to even) DISTINCT nodes "
